@@ -14,11 +14,13 @@ import (
 	"strconv"
 	"strings"
 	"sync"
+	"sync/atomic"
 	"syscall"
 	"time"
 
 	"github.com/anishathalye/porcupine"
 	wt "github.com/hnakamur/whispertool"
+	wcmd "github.com/hnakamur/whispertool/cmd"
 	"golang.org/x/sys/unix"
 
 	"verifharness/fw"
@@ -48,7 +50,7 @@ func (c13) Meta() fw.Meta {
 			"advisory locks bind cooperating default-option handles only (WithoutFlock handles are outside the property)",
 			"recorded [acquired,releasing] intervals are subsets of the real hold intervals, so an observed overlap is a sound conviction; absence of overlap is evidence only for the schedules produced",
 		},
-		Obligations: []string{"trials", "sessions", "sessions_blocked_inprocess", "sessions_blocked_crossprocess", "porcupine_ok", "failed_open_probes", "writer_generations_checked", "reader_uniformity_checked", "creator_sessions", "double_close_sessions", "long_hold_trials", "sparse_schedule_trials", "double_close_probes", "later_opens_after_failed_open"},
+		Obligations: []string{"trials", "sessions", "sessions_blocked_inprocess", "sessions_blocked_crossprocess", "porcupine_ok", "failed_open_probes", "writer_generations_checked", "reader_uniformity_checked", "creator_sessions", "double_close_sessions", "long_hold_trials", "sparse_schedule_trials", "double_close_probes", "later_opens_after_failed_open", "command_style_reads_during_writer_sessions", "racing_creator_rounds"},
 		Race:        true,
 		Workers:     8,
 	}
@@ -255,6 +257,17 @@ func (c13) Run(c *fw.Ctx) {
 	c13DoubleCloseProbe(c)
 	if c.Violated() {
 		return
+	}
+	if c.Index%2 == 0 {
+		c13CommandReaders(c)
+		if c.Violated() {
+			return
+		}
+	} else {
+		c13RacingCreators(c)
+		if c.Violated() {
+			return
+		}
 	}
 	dir := c.TmpDir()
 	path := filepath.Join(dir, "c13.wsp")
@@ -646,4 +659,173 @@ func c13FailedOpen(c *fw.Ctx) {
 		laterOpen(p, "Create(read-only flag)")
 	}
 	os.Remove(p)
+}
+
+// c13CommandReaders: the read path the commands and the server use (all archives of a file in one request) against
+// writer sessions that stamp EVERY archive with their generation: one read is one session - it never sees archives of
+// different generations.
+func c13CommandReaders(c *fw.Ctx) {
+	l := model.Layout{Archs: []model.Arch{{Step: 1, Points: 600}, {Step: 60, Points: 100}, {Step: 600, Points: 40}}, Method: 3, Xff: 0}
+	dir := c.TmpDir()
+	path := filepath.Join(dir, "cmdread.wsp")
+	stamp := func(db *wt.Whisper, gen int64) error {
+		for ai := len(l.Archs) - 1; ai >= 0; ai-- {
+			a := l.Archs[ai]
+			pts := make([]wt.Point, 0, a.Points)
+			for t := model.AlignNext(c13Now-a.Ret(), a.Step); t <= c13Now; t += int64(a.Step) {
+				pts = append(pts, wt.Point{Time: u32(t), Value: wt.Value(gen)})
+			}
+			if err := db.UpdatePointsForArchive(pts, ai, c13Now); err != nil {
+				return err
+			}
+		}
+		return nil
+	}
+	db, err := createFile(path, l)
+	if err != nil {
+		panic(err)
+	}
+	stamp(db, 0)
+	db.Sync()
+	db.Close()
+	var wg sync.WaitGroup
+	var mu sync.Mutex
+	var bad string
+	stop := make(chan struct{})
+	for w := 0; w < 2; w++ {
+		wg.Add(1)
+		go func() {
+			defer wg.Done()
+			for k := 0; k < 40; k++ {
+				select {
+				case <-stop:
+					return
+				default:
+				}
+				db, err := wt.Open(path)
+				if err != nil {
+					return
+				}
+				ts, err := db.FetchFromArchive(0, u32(c13Now-5), c13Now, c13Now)
+				gen := int64(0)
+				if err == nil && ts != nil && len(ts.Values()) > 0 {
+					gen = int64(ts.Values()[0])
+				}
+				stamp(db, gen+1)
+				db.Sync()
+				db.Close()
+			}
+		}()
+	}
+	reads := int64(0)
+	for rd := 0; rd < 3; rd++ {
+		wg.Add(1)
+		go func() {
+			defer wg.Done()
+			for k := 0; k < 60; k++ {
+				_, tl, err := wcmd.VerifReadWhisperFile(dir, "cmdread.wsp", -1, 0, c13Now, c13Now)
+				if err != nil {
+					mu.Lock()
+					bad = "read failed: " + err.Error()
+					mu.Unlock()
+					return
+				}
+				gens := map[int64]bool{}
+				per := make([]int64, len(tl))
+				for ai, ts := range tl {
+					per[ai] = -1
+					if ts == nil {
+						continue
+					}
+					for _, v := range ts.Values() {
+						if !math.IsNaN(float64(v)) {
+							gens[int64(v)] = true
+							per[ai] = int64(v)
+						}
+					}
+				}
+				atomic.AddInt64(&reads, 1)
+				if len(gens) > 1 {
+					mu.Lock()
+					bad = fmt.Sprintf("one read of all archives returned generations %v (last value per archive: %v)", gens, per)
+					mu.Unlock()
+					return
+				}
+			}
+		}()
+	}
+	done := make(chan struct{})
+	go func() { wg.Wait(); close(done) }()
+	select {
+	case <-done:
+	case <-time.After(120 * time.Second):
+		close(stop)
+		c.Violationf("command-reader-trial-hangs", fw.J{}, "writer sessions and command-style reads of one file did not finish within 120 s")
+		return
+	}
+	c.Count("command_style_reads_during_writer_sessions", atomic.LoadInt64(&reads))
+	if bad != "" {
+		c.Violationf("torn-read", fw.J{"reader": "cmd read path (all archives in one request)", "what": bad}, "a read through the commands' read path saw a mixture of writer sessions: %s", bad)
+	}
+}
+
+// c13RacingCreators: several sessions create the same, not yet existing path at the same moment (two commands that both
+// found their destination missing). Exactly one Create succeeds; what that session stamps and syncs is what the file
+// holds afterwards - no other "creator" ever held, or replaced, the file.
+func c13RacingCreators(c *fw.Ctx) {
+	l := c13Layout()
+	dir := c.TmpDir()
+	for round := 0; round < 12 && !c.Violated(); round++ {
+		path := filepath.Join(dir, fmt.Sprintf("race-create-%d.wsp", round))
+		const n = 4
+		start := make(chan struct{})
+		var wg sync.WaitGroup
+		ok := make([]bool, n)
+		for i := 0; i < n; i++ {
+			wg.Add(1)
+			go func(i int) {
+				defer wg.Done()
+				<-start
+				db, err := createFile(path, l)
+				if err != nil {
+					return
+				}
+				ok[i] = true
+				c13Stamp(db, int64(100+i))
+				db.Sync()
+				time.Sleep(time.Duration(i) * time.Millisecond)
+				db.Close()
+			}(i)
+		}
+		close(start)
+		wg.Wait()
+		winners := []int{}
+		for i, w := range ok {
+			if w {
+				winners = append(winners, i)
+			}
+		}
+		c.Count("racing_creator_rounds", 1)
+		if len(winners) != 1 {
+			c.Violationf("racing-creators-not-exclusive", fw.J{"creators": n, "succeeded": winners}, "%d sessions created the same new path at once and %d of them succeeded (want exactly one)", n, len(winners))
+			return
+		}
+		db, err := wt.Open(path)
+		if err != nil {
+			c.Violationf("session-error", fw.J{"err": err.Error()}, "the file created by the winning session cannot be opened: %v", err)
+			return
+		}
+		ts, err := db.FetchFromArchive(0, u32(c13Now-c13N), c13Now, c13Now)
+		db.Close()
+		if err != nil || ts == nil {
+			c.Violationf("session-error", fw.J{"err": fmt.Sprint(err)}, "fetch from the created file failed: %v", err)
+			return
+		}
+		g := gensOf(ts)
+		if len(g) != 1 || !g[int64(100+winners[0])] {
+			c.Violationf("lost-update", fw.J{"winner": winners[0], "generations_in_file": fmt.Sprint(g)}, "the winning creator stamped generation %d and synced; the file holds %v", 100+winners[0], g)
+			return
+		}
+		os.Remove(path)
+	}
 }
